@@ -90,6 +90,10 @@ class StorageAdapter(Adapter):
                 "disk_full_at_byte": c.get("fault_disk_full", 0),
                 "disk_full_where_save_raised": c.get("disk_full_save_raised", 0),
                 "disk_full_where_save_returned_normally": c.get("disk_full_save_returned_normally", 0),
+                "io_error_at_call_during_save": c.get("fault_io_error_during_save", 0),
+                "torn_in_place_after_load": c.get("fault_torn_in_place_after_load", 0),
+                "resaved_in_place_and_cut": c.get("fault_resaved_in_place_and_cut", 0),
+                "crash_sampled_in_big_files": c.get("fault_crash_sampled_in_big_file", 0),
             }
             cov["cut_points_per_file_exhaustive"] = True
             cov["simulated_bytes_written"] = c.get("file_bytes", 0)
@@ -200,7 +204,7 @@ class PooledAdapter(Adapter):
     RUNS = {"quick": 2400, "thorough": 60000}
     SELFTEST = {"quick": 6, "thorough": 16}
     required_probes = ("pooled_runs_engaged", "engaged_via_flag", "engaged_via_threshold", "strategy_uniform",
-                       "strategy_pct", "strategy_targeted", "strategy_rtc", "switches_with_2+_tasks_in_flight",
+                       "strategy_pct", "strategy_targeted", "strategy_rtc", "strategy_burst", "strategy_lockstep", "switches_with_2+_tasks_in_flight",
                        "probe_poolsize_1", "cube_ccube", "cube_xcube")
     assumptions = [
         "SimPool is observably equivalent to multiprocessing.pool.ThreadPool.map (checked by the stub-fidelity self-test)",
@@ -337,7 +341,8 @@ class PurityAdapter(PooledAdapter):
     required_probes = ("op_calculate", "op_shortcut", "op_newcube", "op_index", "probe_correct_call_after_interrupt",
                        "probe_several_aggregates_in_one_pass", "fault_interrupt_during_session",
                        "probe_aggregate_reused_on_cube_with_other_row_count",
-                       "probe_same_aggregate_object_twice_in_one_pass", "cube_ccube",
+                       "probe_same_aggregate_object_twice_in_one_pass",
+                       "probe_aggregate_used_on_dimensionless_cube", "cube_ccube",
                        "cube_xcube")
     assumptions = [
         "an aggregate evaluated alone, serially, on fresh copies with a fresh object is the reference for that aggregate",
@@ -395,7 +400,8 @@ REGISTRY = {
     "C15": HistAdapter("C15", HIST_PROBES + ("c15_library_chosen_common_checked", "c15_equality_pairs")),
     "C10": StorageAdapter("C10", "exploration", {"quick": 220000, "thorough": 6000000},
                           probes=("index_derived_cases", "empty_entry_sets", "cases_with_empty_rowid_array",
-                                  "wmode_raw", "wmode_bufw", "wmode_bufrw", "c_level_blocks")),
+                                  "wmode_raw", "wmode_bufw", "wmode_bufrw", "wmode_append", "wmode_bufappend", "c_level_blocks",
+                                  "probe_earlier_load_rechecked_after_next_load")),
     "C11": StorageAdapter("C11", "exploration", {"quick": 90000, "thorough": 2500000},
                           probes=("scale_total_ge_2^30", "scale_total_ge_2^32", "ref_to_lib_iw8_rw8",
                                   "ref_to_lib_iw1_rw1", "lib_to_ref_files")),
@@ -403,5 +409,6 @@ REGISTRY = {
                           probes=("fault_crash_at_byte", "fault_disk_full", "cut_region_magic",
                                   "cut_region_version", "cut_region_size_word", "cut_region_header",
                                   "cut_region_coordinates", "cut_region_lengths", "cut_region_rowids",
-                                  "cut_region_last_byte", "disk_full_save_raised")),
+                                  "cut_region_last_byte", "disk_full_save_raised", "fault_io_error_during_save",
+                                  "fault_torn_in_place_after_load", "big_files")),
 }
